@@ -1,4 +1,9 @@
-# properties that are designed (DESIGN.md section 3) but whose check is not built yet are listed as pending
-CHECKS = {}
+# checks beyond the four written out in mkmanifest.py; PENDING = designed but not built yet
+CHECKS = {
+ 'C15': ('fault_enumeration', 'fault-point enumeration: every I/O step of the fault-free run of the faulted phase x applicable fault kinds x {single-shot, persistent}; quick samples points per plan without replacement, thorough enumerates; containment oracle (step budget, return ranges, position deltas, ASan, resource audit, failed open, accepted data not corrupted)', '3 C15'),
+ 'C16': ('exploration', 'resource audit at the end of every plan: allocation ledger (link-time malloc seam), simulated descriptor table, simulated namespace (temp files), close return value; histories biased to failing opens at every parse depth, allocating commands, ALAC temp files, SD2 resource forks, injected faults', '3 C16'),
+ 'C11': ('fault_enumeration', 'crash-point enumeration: after every header update (explicit or automatic) the store is copied and parsed by an independent recovery reader; frames/params/prefix/eof compared with the model; differential run without updates for audio.unchanged', '3 C11'),
+ 'C03': ('exploration', 'storage-corruption faults (bit rot, torn/zeroed/misdirected sectors, field overwrites, truncation, junk) injected into valid images of every writable format, then seeded API histories over VIO / descriptor / path / FIFO routes under ASan, invariant hook and the simulated-I/O step budget', '3 C03'),
+}
 PENDING = {p: 'check designed in DESIGN.md section 3 but not built yet in this revision (to be claimed when its profile exists)' for p in
-           ['C03', 'C07', 'C08', 'C09', 'C11', 'C12', 'C13', 'C14', 'C15', 'C16', 'C17', 'C18', 'C19']}
+           ['C07', 'C08', 'C09', 'C12', 'C13', 'C14', 'C17', 'C18', 'C19']}
